@@ -8,7 +8,7 @@ package pub
 
 // vfHostileJSON: a JSON value of a harness-chosen kind with symbolic leaves.
 func vfHostileJSON(tag string) interface{} {
-	switch vfChoose(tag+".kind", 9) {
+	switch vfChoose(tag+".kind", 11) {
 	case 0:
 		return nil
 	case 1:
@@ -27,6 +27,13 @@ func vfHostileJSON(tag string) interface{} {
 		return map[string]interface{}{"type": "Note", "id": vfFloat(tag + ".idnum")}
 	case 7:
 		return []interface{}{vfIRI(tag + ".iri"), nil}
+	case 8:
+		// a Link-family value (identified by href, it has no id) whose href is not an absolute IRI
+		hrefs := []interface{}{"/relative/ref", 7.0, "", nil}
+		lt := []string{"Mention", "Link"}[vfChoose(tag+".linktype", 2)]
+		return map[string]interface{}{"type": lt, "href": hrefs[vfChoose(tag+".href", len(hrefs))]}
+	case 9:
+		return map[string]interface{}{"type": "Mention", "href": vfIRI(tag + ".href")}
 	}
 	return ""
 }
